@@ -664,6 +664,17 @@ def route2(ctx, pid):
             ctx.bad(cst, f.loc(calls[0]), probs[0])
         else:
             ctx.ok(cst, f.loc(calls[0]), "self.root_hash = self._set(self.root_hash, encode_to_bin(key), %s, if_delete_subtrie=%s)" % (tstr(w["value"]), tstr(w["if_delete_subtrie"])))
+    # get is _get(root, encode_to_bin(key))
+    f = c.methods.get("get")
+    getf = c.methods.get("_get")
+    if f is None or getf is None:
+        raise AnalysisError("anchor vanished: BinaryTrie.get / _get")
+    rets = {st.ret for p, st in pq.states(ctx, f) if p.exit[0] == "return"}
+    w = ("call", BIN + "._get", (("self",), ("attr", ("self",), "root_hash"), ("call", "trie.utils.binaries:encode_to_bin", (("p", f.params[1]),), ())), ())
+    if rets == {w}:
+        ctx.ok("route:BinaryTrie.get", f.loc(), "get(key) is _get(self.root_hash, encode_to_bin(key))")
+    else:
+        ctx.bad("route:BinaryTrie.get", f.loc(), "get returns `%s`, expected _get(self.root_hash, encode_to_bin(key))" % "; ".join(tstr(r)[:70] for r in rets))
     # exists is `get(key) is not None`
     f = c.methods["exists"]
     rets = set()
@@ -1157,3 +1168,126 @@ def split(ctx, pid):
         ctx.bad(cst, f.loc(), "no path realises the arm(s) %s of the kv-node update" % ", ".join(missing), witness={"arms": arms})
     else:
         ctx.ok(cst, f.loc(), "erase / match (emptied, kv child, other child) / unchanged / refuse (dK = 0) / split (%d paths: leaf iff dK = 1, old child iff dP = 1, bit 1 -> right, kv(P[:c]) iff c > 0): every return value equals the table" % arms["split"])
+
+
+def _simp_ite(t, rels, truth):
+    """resolve conditional-expression terms whose condition the path has decided"""
+    if not isinstance(t, tuple) or not t:
+        return t
+    if t[0] == "ite" and len(t) == 4:
+        cond = t[1]
+        for pol in (True, False):
+            r = rel_norm(cond, pol)
+            if r is not None and (r in rels or (r[0] in ("==", "!=") and (r[0], r[2], r[1]) in rels)):
+                return _simp_ite(t[2] if pol else t[3], rels, truth)
+            if r is None:
+                tt, pp = truth_norm(cond, pol)
+                if truth.get(tt) is pp:
+                    return _simp_ite(t[2] if pol else t[3], rels, truth)
+    return tuple(_simp_ite(x, rels, truth) if isinstance(x, tuple) else x for x in t)
+
+
+@rule("BRTAB", ["C12"])
+def brtab(ctx, pid):
+    """The complete outcome table of BinaryTrie._set_branch_node: bit 0 of the key path selects the left child;
+    the other child is kept; if one of the two new children is blank the branch collapses into a kv node over the
+    survivor - (bit + its path, its child) when the survivor is a kv node, (bit, survivor) when it is a branch or a
+    leaf, bit = 1 exactly when the right child survives - otherwise the branch is rebuilt from both children."""
+    eng = S(ctx)
+    K_ = consts(ctx)
+    B0, B1, BLANK = C(K_["BYTE_0"]), C(K_["BYTE_1"]), C(K_["BLANK_HASH"])
+    f = ctx.P.func(BIN + "._set_branch_node")
+    need = ["keypath", "left_child", "right_child", "value", "if_delete_subtrie"]
+    if any(n_ not in f.params for n_ in need):
+        raise AnalysisError("anchor vanished: parameters of BinaryTrie._set_branch_node")
+    K, L, R, V, IDS = (("p", n_) for n_ in need)
+    SELF = ("self",)
+
+    def Hs(x):
+        return ("call", BIN + "._hash_and_save", (SELF, x), ())
+
+    def kv(a, b):
+        return ("call", ENC_KV, (a, b), ())
+
+    def rec(child):
+        return ("call", BIN + "._set", (SELF, child, ("slice", K, C(1), None), V, IDS), ())
+
+    probs, unsure = [], []
+    arms = {"rebuild": 0, "collapse-kv": 0, "collapse-other": 0}
+    for p, st in pq.states(ctx, f):
+        if p.exit[0] != "return":
+            continue
+        rels, truth = [], {}
+        for t, pol, _ in st.log:
+            r = rel_norm(t, pol)
+            if r is not None:
+                rels.append(r)
+            else:
+                tt, pp = truth_norm(t, pol)
+                truth[tt] = pp
+
+        def eq(a, b):
+            for op, l, r in rels:
+                if (l, r) in ((a, b), (b, a)) and op in ("==", "!="):
+                    return op == "=="
+            return None
+        node = p.exit[1]
+        bit0 = eq(("slice", K, None, C(1)), B0)
+        if bit0 is None:
+            b1 = eq(("slice", K, None, C(1)), B1)
+            bit0 = None if b1 is None else not b1
+        if bit0 is None:
+            unsure.append((node, "a path returns without testing the first bit of the key path"))
+            continue
+        nl, nr = (rec(L), R) if bit0 else (L, rec(R))
+        if not any(ev.k == "call" and ev.a == "ok" and isinstance(ev.node, ast.Call) and eng.ev(ev.node, f, st) == (nl if bit0 else nr) for ev in st.events):
+            probs.append((node, "bit %d of the key: the recursion does not go into the %s child with keypath[1:], value and the subtrie flag" % (0 if bit0 else 1, "left" if bit0 else "right")))
+            continue
+        changed, kept = (nl, R) if bit0 else (nr, L)
+        if eq(kept, BLANK) is True:
+            continue  # a stored branch has two children (A2): the untouched child is never blank
+        rels = rels + [("!=", kept, BLANK)]
+        cb = eq(changed, BLANK)
+        got = _simp_ite(st.ret, rels, truth)
+        if cb is None:
+            unsure.append((node, "a path returns without comparing the updated child with the blank hash"))
+            continue
+        if not cb:
+            arms["rebuild"] += 1
+            want = Hs(("call", ENC_BR, (nl, nr), ()))
+        else:
+            surv = kept
+            fb = B1 if bit0 else B0  # bit 0 went left, so the right child survives
+            pt = ("call", "trie.utils.nodes:parse_node", (("sub", ("attr", SELF, "db"), surv),), ())
+            kind = None
+            for op, l_, r_ in rels:
+                l2 = _simp_ite(l_, rels, truth)
+                if l2 == ("sub", pt, C(0)):
+                    if op == "==" and r_ == C(K_["KV_TYPE"]):
+                        kind = "kv"
+                    elif op == "in" and kind is None:
+                        kind = "other"
+                    elif op == "==" and r_ in (C(K_["BRANCH_TYPE"]), C(K_["LEAF_TYPE"])):
+                        kind = "other"
+            if kind is None:
+                unsure.append((node, "a collapsing path does not decide the type of the surviving child"))
+                continue
+            if kind == "kv":
+                arms["collapse-kv"] += 1
+                want = Hs(kv(eng.mk_bin("+", fb, ("sub", pt, C(1))), ("sub", pt, C(2))))
+            else:
+                arms["collapse-other"] += 1
+                want = Hs(kv(fb, surv))
+        if got != want:
+            probs.append((node, "returns `%s`; under the conditions of this path the result has to be `%s`" % (tstr(got)[:110], tstr(want)[:110])))
+    cst = "outcome-table:BinaryTrie._set_branch_node"
+    missing = [a for a, n_ in arms.items() if n_ == 0]
+    if probs:
+        node, why = probs[0]
+        ctx.bad(cst, f.loc(node), why, witness={"problems": sorted({w for _, w in probs})[:6], "arms": arms})
+    elif unsure:
+        ctx.unsure(cst, f.loc(unsure[0][0]), unsure[0][1])
+    elif missing:
+        ctx.bad(cst, f.loc(), "no path realises the arm(s) %s of the branch update" % ", ".join(missing))
+    else:
+        ctx.ok(cst, f.loc(), "rebuild (%d paths) / collapse over a kv survivor (%d) / collapse over a branch or leaf survivor (%d): every return value equals the table" % (arms["rebuild"], arms["collapse-kv"], arms["collapse-other"]))
